@@ -1425,12 +1425,17 @@ func (lhh *LightHouseHandler) handleHostPunchNotification(n *NebulaMeta, fromVpn
 	}
 
 	remoteAllowList := lhh.lh.GetRemoteAllowList()
+	// If we already have a tunnel with this host we know every vpn address in its certificate, check them all
+	punchVpnAddrs := []netip.Addr{detailsVpnAddr}
+	if hi := w.GetHostInfo(detailsVpnAddr); hi != nil && slices.Contains(hi.vpnAddrs, detailsVpnAddr) {
+		punchVpnAddrs = hi.vpnAddrs
+	}
 	for _, a := range n.Details.V4AddrPorts {
 		if a == nil {
 			continue
 		}
 		b := protoV4AddrPortToNetAddrPort(a)
-		if remoteAllowList.Allow(detailsVpnAddr, b.Addr()) && !lhh.lh.myVpnNetworksTable.Contains(b.Addr()) {
+		if remoteAllowList.AllowAll(punchVpnAddrs, b.Addr()) && !lhh.lh.myVpnNetworksTable.Contains(b.Addr()) {
 			lhh.lh.punchy.Schedule(b, detailsVpnAddr)
 		}
 	}
@@ -1440,7 +1445,7 @@ func (lhh *LightHouseHandler) handleHostPunchNotification(n *NebulaMeta, fromVpn
 			continue
 		}
 		b := protoV6AddrPortToNetAddrPort(a)
-		if remoteAllowList.Allow(detailsVpnAddr, b.Addr()) && !lhh.lh.myVpnNetworksTable.Contains(b.Addr()) {
+		if remoteAllowList.AllowAll(punchVpnAddrs, b.Addr()) && !lhh.lh.myVpnNetworksTable.Contains(b.Addr()) {
 			lhh.lh.punchy.Schedule(b, detailsVpnAddr)
 		}
 	}
